@@ -46,10 +46,11 @@ class WField:
 class WSchema:
     cls: type
     path: str  # "module:QualName"
-    flexible: bool
+    flexible: bool  # the VERSION's flexibility per the pinned API table (the class constant where no pin applies)
     fields: list[WField]
     is_request_header: bool
     etype: str
+    declared_flexible: bool = False  # the class's own __flexible__
 
     @property
     def untagged(self):
@@ -161,13 +162,37 @@ def wire_schema(cls) -> WSchema:
     ws = WSchema(
         cls=cls,
         path=f"{cls.__module__}:{cls.__qualname__}",
-        flexible=flexible,
+        flexible=pinned_flexibility(cls.__module__, flexible),
+        declared_flexible=flexible,
         fields=fields,
         is_request_header=cls.__module__.startswith("kio.schema.request_header."),
         etype=getattr(et, "name", str(et)),
     )
     _cache[cls] = ws
     return ws
+
+
+_pins = None
+
+
+def pinned_flexibility(modname, declared):
+    """Flexibility of kio.schema.<api>.v<N>.<type> according to pins/kafka-3.9.0-apis.json; the declared value
+    for anything else (synthetic classes, scratch packages).  The reference codec follows the VERSION's
+    flexibility, not what an individual class says about itself."""
+    global _pins
+    m = re.fullmatch(r"kio\.schema\.([a-z0-9_]+)\.v(\d+)\.(request|response|header|data)", modname)
+    if not m:
+        return declared
+    if _pins is None:
+        import json
+
+        from .core import ROOT
+
+        _pins = json.load(open(os.path.join(ROOT, "pins", "kafka-3.9.0-apis.json")))
+    t = _pins.get(m.group(1), {}).get("types", {}).get(m.group(3))
+    if t is None or not t["min"] <= int(m.group(2)) <= t["max"]:
+        return declared
+    return t["first_flexible"] is not None and int(m.group(2)) >= t["first_flexible"]
 
 
 _all = None
